@@ -277,6 +277,9 @@ func (e *c34Env) boundaryPayloads() []c34Payload {
 		// for the tar formats an entry that denotes the root is the recorded finding C05-root-destination)
 		{"root-directory-rpm", []wire.Content{{Dst: "/", Type: "dir"}, c34File(j("bin/tool"), "/usr/bin/tool")}},
 		{"root-directory-rpm", []wire.Content{{Src: j("tree"), Dst: "/", Type: "tree"}, c34File(j("bin/tool"), "/opt/tool")}},
+		// a source that is a character device (deb.tarHeader has branches for devices and fifos): the member is at its
+		// destination like every other
+		{"device-source-deb", []wire.Content{c34File("/dev/null", "/opt/dev/null-device"), c34File(j("bin/tool"), "/usr/bin/tool")}},
 		{"long-names", []wire.Content{c34File(j("bin/tool"), "/opt/long/"+strings.Repeat("d", 60)+"/"+strings.Repeat("n", 120)+".txt"),
 			c34File(j("etc/app.conf"), "/opt/long/"+strings.Repeat("e", 91)+"/"+strings.Repeat("f", 90)+"/"+strings.Repeat("g", 110)),
 			{Src: "/" + strings.Repeat("t", 130), Dst: "/opt/long/" + strings.Repeat("l", 101), Type: "symlink"},
@@ -480,6 +483,9 @@ func (e *c34Env) boundaryCases() []c34Case {
 			}
 			for _, f := range Formats {
 				if p.Class == "root-directory-rpm" && f != "rpm" {
+					continue
+				}
+				if p.Class == "device-source-deb" && f != "deb" {
 					continue
 				}
 				var comps []string
